@@ -316,6 +316,21 @@ fn encode_udp_packet(payload: &[u8]) -> Result<Bytes> {
     Ok(buf.freeze())
 }
 
+/// Wrappers exposing the private wire-format functions to the verification harness.
+#[cfg(feature = "verif")]
+pub mod verif_api {
+    use super::*;
+    pub fn encode_initial_request(target: SocketAddr) -> Result<Bytes> {
+        super::encode_initial_request(target)
+    }
+    pub fn encode_udp_packet(payload: &[u8]) -> Result<Bytes> {
+        super::encode_udp_packet(payload)
+    }
+    pub async fn read_udp_packet(reader: &mut crate::session::StreamReader) -> Result<Vec<u8>> {
+        super::read_udp_packet(reader).await
+    }
+}
+
 #[cfg(test)]
 mod tests {
     use super::*;
